@@ -46,6 +46,10 @@ def prepare(names):
         root = _root()
         mdir = os.path.join(root, "models", name)
         shutil.copytree(os.path.join(MODELS, name), mdir)
+        if name == "c19computed":
+            from harness.py import c19shapes
+            with open(os.path.join(mdir, "shapes.yml"), "w") as f:     # generated part of the model (see c19shapes.py)
+                f.write(c19shapes.yml())
         r = subprocess.run([y, "generate"], cwd=mdir, capture_output=True, text=True)
         outdir = os.path.join(root, "models", "out_" + name)
         if r.returncode != 0 or not os.path.isdir(outdir):
@@ -506,6 +510,157 @@ def h_c19_float(env, rec, field):
         env.check("computed.float-expression==ieee-value", same(res, float(a) ** float(b)), "py:computed:pw:wrong-value")
     elif field == "sz":
         env.check("computed.size==length", type(res) is int and res == n, "py:computed:sz:wrong-value")
+
+
+# ------------------------------------------------------------------------------------------------
+# C19, systematically: every nesting of two binary operators (and the placements of a unary minus) over
+# three operands; the model text and the expression trees come from harness/py/c19shapes.py.
+from harness.py import c19shapes as SH
+
+SH_TYPES = {"Sh3I32": (-2**31, 2**31 - 1), "Sh3I64": (-2**63, 2**63 - 1), "Sh3U8": (0, 255), "Sh3I16": (-2**15, 2**15 - 1)}
+SH_IPOOL = [0, 1, 2, 3, -2]
+SH_UPOOL = [0, 1, 2, 3, 7]
+SH_FPOOL = [2.0, 0.5, -3.0, 7.5, 0.0]
+# Shapes of the *unchanged* tree that do not compute the model expression (reported, not registered):
+#   Sh3F64.nl_pow  `(-a) ** b` is emitted as `-(self.a) ** self.b`, which Python reads as -(a ** b)
+#   (the integer records are shielded by the float(...) conversion the emitter wraps around `-(self.a)`)
+SH_EXCLUDED = {("Sh3F64", "nl_pow")}
+
+
+class _OutOfDomain(Exception):
+    pass
+
+
+def _count(tree, op):
+    if isinstance(tree, str):
+        return 0
+    return (1 if tree[0] == op else 0) + sum(_count(t, op) for t in tree[1:])
+
+
+def sh_eval_int(tree, vals, inter, divs):
+    """exact integer value of a power-free tree (C semantics: division truncates); records every node value
+    in `inter` and every (dividend, divisor) in `divs`"""
+    if isinstance(tree, str):
+        return vals[tree]
+    if tree[0] == "neg":
+        v = -sh_eval_int(tree[1], vals, inter, divs)
+    else:
+        l, r = sh_eval_int(tree[1], vals, inter, divs), sh_eval_int(tree[2], vals, inter, divs)
+        if tree[0] == "add":
+            v = l + r
+        elif tree[0] == "sub":
+            v = l - r
+        elif tree[0] == "mul":
+            v = l * r
+        elif tree[0] == "div":
+            divs.append((l, r))
+            v = tdiv(l, r)
+        else:
+            raise KeyError(tree[0])
+    inter.append(v)
+    return v
+
+
+def sh_eval_typed(tree, vals, lo, hi):
+    """value of a tree over concrete operands with the documented typing: `**` yields float64 (operands
+    converted), any other operator is integral iff both operands are, else float64 (IEEE double
+    operations); integer division truncates.  Raises _OutOfDomain where C++ and Python legitimately part
+    (integer intermediate outside the operand type, division by zero, 0 ** negative, negative ** non-integer,
+    overflow to infinity)."""
+    if isinstance(tree, str):
+        return vals[tree]
+    if tree[0] == "neg":
+        v = sh_eval_typed(tree[1], vals, lo, hi)
+        r = -v
+    else:
+        l, r0 = sh_eval_typed(tree[1], vals, lo, hi), sh_eval_typed(tree[2], vals, lo, hi)
+        op = tree[0]
+        integral = op != "pow" and isinstance(l, int) and isinstance(r0, int)
+        try:
+            if integral:
+                if op == "div":
+                    if r0 == 0:
+                        raise _OutOfDomain("integer division by zero")
+                    r = tdiv(l, r0)
+                    if r * r0 != l and (l < 0) != (r0 < 0):
+                        raise _OutOfDomain("negative inexact quotient: Python floors (listed known finding)")
+                else:
+                    r = l + r0 if op == "add" else l - r0 if op == "sub" else l * r0
+            else:
+                l, r0 = float(l), float(r0)
+                if op == "div":
+                    if r0 == 0.0:
+                        raise _OutOfDomain("division by zero")
+                    r = l / r0
+                elif op == "pow":
+                    if (l == 0.0 and r0 < 0) or (l < 0 and r0 != int(r0)):
+                        raise _OutOfDomain("pow outside the real domain")
+                    r = l ** r0
+                else:
+                    r = l + r0 if op == "add" else l - r0 if op == "sub" else l * r0
+        except (OverflowError, ZeroDivisionError) as e:
+            raise _OutOfDomain(str(e))
+    if isinstance(r, int) and not (lo <= r <= hi):
+        raise _OutOfDomain("integer intermediate outside the operand type")
+    if isinstance(r, complex) or (isinstance(r, float) and (r != r or r in (float("inf"), float("-inf")))):
+        raise _OutOfDomain("not a finite real")
+    return r
+
+
+def h_c19_shape(env, rec, field):
+    T = pkg(env, "c19computed").types
+    cls = getattr(T, rec)
+    text, tree = SH.shapes()[field]
+    same = lambda p, q: type(p) is type(q) and (p == q or (p != p and q != q))
+    if rec != SH.FLOAT_RECORD and not SH.uses_pow(tree):
+        # integer operands, symbolic over the field type (narrowed so that products stay inside the 80-bit model)
+        lo, hi = SH_TYPES[rec]
+        nmul = _count(tree, "mul")
+        cap = [2**63, 2**38, 2**24][nmul]
+        a, b, c = (env.int(n, max(lo, -cap), min(hi, cap)) for n in "abc")
+        inter, divs = [], []
+        exact = sh_eval_int(tree, {"a": a, "b": b, "c": c}, inter, divs)
+        # C++: division by zero is undefined; where the quotient is negative and inexact Python's floor
+        # division is the listed known finding: both are outside this obligation (it is about the tree).
+        # The sign conditions (rather than "exact or non-negative quotient") keep the 80-bit division
+        # circuits out of the proof: with them // and C++ / are the same term.
+        for n, d in divs:
+            env.assume(AND(n >= 0, d > 0))     # non-negative dividend, positive divisor: floor and truncation agree
+        inr = AND(*[AND(v >= lo, v <= hi) for v in inter])
+        r = cls(a=a, b=b, c=c)
+        ok, res = env.attempt(getattr(r, field))
+        if not ok:
+            env.observe("exc", type(res).__name__)
+            return env.fail("computed.no-exception-for-in-range-operands", "py:computed:shape:%s:%s" % (field, type(res).__name__), "%s raised %s" % (text, res))
+        env.reach("computed.no-exception-for-in-range-operands")
+        env.observe("result", res)
+        env.check("computed.nested-expression==value-of-the-expression-tree", IMPLIES(inr, EQ(res, exact)), "py:computed:shape:%s:wrong-value" % field,
+                  "`%s` evaluates to a value different from its expression tree (operand grouping)" % text)
+        return
+    # power shapes / floating-point operands: operands from small pools, decided by forking
+    if rec == SH.FLOAT_RECORD:
+        pool, lo, hi = SH_FPOOL, 0, 0
+    else:
+        lo, hi = SH_TYPES[rec]
+        pool = SH_UPOOL if lo == 0 else SH_IPOOL
+    names = sorted({n for n in "abc" if n in text})
+    vals = {"a": pool[0], "b": pool[0], "c": pool[0]}
+    for n in names:
+        vals[n] = pool[env.choice(n, len(pool))]
+    try:
+        exact = sh_eval_typed(tree, vals, lo, hi)
+    except _OutOfDomain:
+        env.reach("computed.operands-outside-the-common-domain")
+        return
+    r = cls(**vals)
+    ok, res = env.attempt(getattr(r, field))
+    if not ok:
+        env.observe("exc", type(res).__name__)
+        return env.fail("computed.no-exception-for-in-range-operands", "py:computed:shape:%s:%s" % (field, type(res).__name__), "%s raised %s" % (text, res))
+    env.reach("computed.no-exception-for-in-range-operands")
+    env.observe("result", res)
+    env.check("computed.nested-expression==value-of-the-expression-tree", same(res, exact), "py:computed:shape:%s:wrong-value" % field,
+              "`%s` with %r evaluates to %r, its expression tree to %r" % (text, vals, res, exact))
 
 
 # ================================================================================================
